@@ -247,7 +247,18 @@ struct WorldSO : World, Net {
     Hash64 h; h.str(rout->data); h.str(payload); res->state_hash = h.get();
   }
 
+  // the queue file could not be read to its end (injected error): the attempt must end without the end-of-data sequence and be
+  // reported as a temporary failure; a terminated DATA is judged like any other, i.e. it must carry the whole message
+  bool read_error_handled(const std::string &outs) {
+    bool read_fault = false; for (auto &f : k->faults) if (f.fired && f.call == C_READ && f.kind == "error" && f.actor.compare(0, 12, "qmail-remote") == 0) read_fault = true;
+    if (!read_fault || data_done) return false;
+    std::vector<std::string> sg; parse_out(sg);
+    if (sg.empty() || sg.back().empty() || sg.back()[0] != 'Z') violate("C06.read-error-not-temporary", "the message could not be read completely, qmail-remote said " + outs); else k->probe("c06_read_error_ends_without_terminator");
+    return true;
+  }
+
   void check_c06(const std::string &outs) {
+    if (read_error_handled(outs)) return;
     bool ends_nl = !msg.empty() && (msg.back() == '\n' || msg.back() == '\r');   // a bare CR ends a line too (unit tests)
     if (!saw_data || data.code >= 400 || greeting.code != 220) return;
     if (!msg.empty() && !ends_nl) {
@@ -273,6 +284,7 @@ struct WorldSO : World, Net {
   }
 
   void check_c06_relay(const std::string &outs) {
+    if (read_error_handled(outs)) return;
     bool ends_nl = !msg.empty() && msg.back() == '\n';
     if (msg.empty() || !ends_nl) return;
     bool k_ok = rout->data.find(std::string(1, '\0') + "K") != std::string::npos || rout->data.compare(0, 1, "K") == 0;
